@@ -72,6 +72,7 @@ func vIntRange(name string, lo, hi int) int {
 	return v
 }
 func vDuration(name string) time.Duration { return time.Duration(vNum(name)) }
+func vDurationN(name string, bits int) time.Duration { return time.Duration(vNum(name)) }
 
 func vString(name string, cap int) string {
 	vLoadReplay()
@@ -173,3 +174,5 @@ func vBlockUntil(f func() bool) {
 		time.Sleep(time.Millisecond)
 	}
 }
+
+func vNote(s string) { fmt.Println("NOTE:", s) }
